@@ -1036,9 +1036,27 @@ def _expand_module_constants(tree):
     return count[0]
 
 
+class _PruneConstantIfs(ast.NodeTransformer):
+    """`if True:` / `if False:` / `if 0:` (a literal test): replaced by the arm that runs.  `while False:` is dropped."""
+
+    def visit_If(self, node):
+        self.generic_visit(node)
+        if isinstance(node.test, ast.Constant) and isinstance(node.test.value, (bool, int)) and not isinstance(node.test.value, str):
+            arm = node.body if node.test.value else node.orelse
+            return arm if arm else ast.copy_location(ast.Pass(), node)
+        return node
+
+    def visit_While(self, node):
+        self.generic_visit(node)
+        if isinstance(node.test, ast.Constant) and node.test.value is False and not node.orelse:
+            return ast.copy_location(ast.Pass(), node)
+        return node
+
+
 def normalize(tree):
     _expand_module_aliases(tree)
     _expand_module_constants(tree)
+    _PruneConstantIfs().visit(tree)
     inl = Inliner(tree)
     n = inl.run()
     tree._inlined_helpers = set(inl.inlined_names)
